@@ -1,4 +1,5 @@
 import I18n.Model.Msg
+import I18n.Generated.MsgChk
 import I18n.Spec.MessageRules
 import I18n.Driver.Tags
 /- Driver for the message-check model (`msg …`).  Strings: `.`-separated hexadecimal code points, `-` = empty, `~` = None.
@@ -90,6 +91,15 @@ def handle (op : String) (args : List String) : String :=
     | some e =>
       let r := checkMessageFlags liveFlagEnv e
       "ok " ++ showInfo r.1 ++ " " ++ showEmits (observe r.2)
+    | none => "bad-op"
+  -- `gflags`: `_check_message_flags` REGENERATED from lib/check/__init__.py (Generated.MsgChk, tools/translate/msgchk2lean.py; proved equal to
+  -- `checkMessageFlags` in Props/C16Tie.lean); an exception loses what was emitted before it: `err crash`
+  | "gflags", [e] =>
+    match parseEntry e with
+    | some e =>
+      match Generated.MsgChk.check_message_flags liveFlagEnv [] e with
+      | .ok ((fz, rmin, rmax, fs), out) => "ok " ++ showInfo ⟨fz, rmin, rmax, toSorted strLt fs⟩ ++ " " ++ showEmits out
+      | .error _ => "err crash"
     | none => "bad-op"
   | "unusual", [s] => "ok " ++ hexCps ((liveEnv fun _ => .ok).findUnusual (unhexCps s))
   | "marker", [s] =>
